@@ -4,7 +4,10 @@
 // This might be optimised in the future.
 package bytecode
 
-import "fmt"
+import (
+	"errors"
+	"fmt"
+)
 
 // Type is a fixed size 64 bit instruction.
 type Type uint64
@@ -147,6 +150,11 @@ func New(op OpCode) Type {
 	return Type(uint64(op) << OpcodeLo)
 }
 
+// ErrOperandRange is the panic value of EncodeSrc when an address, offset or
+// count does not fit an instruction operand. The compiler front end turns it
+// into a refused statement.
+var ErrOperandRange = errors.New("program too large: an address, jump distance or count does not fit an instruction operand")
+
 // EncodeSrc encodes an instruction operand.
 //
 // srcsel specifies which operand is encoded (0/1/2). src specifies where the
@@ -156,7 +164,7 @@ func New(op OpCode) Type {
 func EncodeSrc(srcsel int, src uint64, srcAddr int) Type {
 	// the operand channel is decoded as a signed SrcChanWidth bit value
 	if srcAddr < -(1<<(SrcChanWidth-1)) || srcAddr >= (1<<(SrcChanWidth-1)) {
-		panic("srcAddr out of range")
+		panic(ErrOperandRange)
 	}
 	addr := uint64(srcAddr)
 	switch srcsel {
